@@ -11,7 +11,7 @@ against reference decompressors).
 "Terminates" is expressed with the models' explicit fuel: there is an amount of fuel from which on the
 result no longer depends on the fuel and is not "still running".
 -/
-import Sqfs.Proofs.XfrmWrap
+import Sqfs.Proofs.XfrmWrapDec
 namespace Sqfs.C15
 open Sqfs.Xfrm Sqfs.Xfrm.Spec
 
@@ -144,27 +144,55 @@ theorem truncated_is_error (hD : DecContract C Dec) {bufsz : Nat} (hb : 0 < bufs
         omega
 
 /--
-**process_data_meets_contract (compressing side; gzip.c, xz.c, bzip2.c with the patch).**  For every library stream
-object `L` that follows the documented zlib / liblzma / libbz2 calling convention for compression
-(`LibEncContract`: answers `OK`/`STREAM_END`/`BUF_ERROR`, `OK` means at least one byte consumed or produced, `STREAM_END`
-only to `FINISH` after all input, what was produced for a member decodes to what was consumed), the backend's
-`process_data` loop (`wrapProcess`, i.e. `while ((in_size > 0 || flush_mode == FLUSH_FULL) && out_size > 0)` with the
-accounting and the mapping of return codes) always leaves within `in_size + out_size + 2` rounds and, as a codec, meets
-`EncContract` — so `ostream_transparent` and `ostream_flush_terminates` apply to it.
+**process_data_meets_contract (gzip.c, xz.c, bzip2.c — the three backends share one loop; with the patch).**
+For every library stream object `L` that follows the documented zlib / liblzma / libbz2 calling convention
+(`LibEncContract` for compression: answers `OK`/`STREAM_END`/`BUF_ERROR`, `OK` means at least one byte consumed or
+produced, `STREAM_END` only to `FINISH` after all input, what was produced for a member decodes to what was consumed;
+`LibDecContract` for decompression on well-formed input: nothing beyond the member is consumed, output is produced as
+input is consumed, `STREAM_END` exactly at the end of the member, `total_in == 0` exactly when nothing of the member has
+been consumed), the backend's `process_data` loop — `while ((in_size > 0 || flush_mode == FLUSH_FULL) && out_size > 0)`,
+the accounting, the mapping of return codes, the reset at the end of a member and the end-of-input rule
+`total_in == 0 ? END : ERROR` — always leaves within `in_size + out_size + 2` rounds and, as a codec, meets `EncContract`
+resp. `DecContract`.  So all wrapper theorems above apply to the three backends.
 
-`process_data_meets_contract_partial`: the statement for the **decompressing** side (`LibDecContract ⇒ DecContract`,
-including the end-of-input rule `total_in == 0 ? END : ERROR`) and for `zstd.c` (`zstdBody`, the `pending` flag) is not
-proved; those loops are modelled, instantiated (`Toy.decLib`, `Toy.encZLib`, `Toy.decZLib`) and compared with the C text on
-every run by harness (a').  The unpatched loop provably does *not* meet the contract (`Sqfs/Witness/C15.lean`).
+`_partial`: the full statement also covers `zstd.c` (`zstdBody`: libzstd's hint convention and the `pending` flag); that
+loop is modelled, instantiated (`Toy.encZLib`, `Toy.decZLib`) and compared with the C text on every run by harness (a'),
+but its contract theorem is not proved.  The unpatched loops provably do *not* meet the contracts (`Sqfs/Witness/C15.lean`).
 -/
-theorem process_data_meets_contract_partial {τ : Type} {L : Lib τ} {b : Backend} (hL : LibEncContract L b Dec) :
-    (∀ {s : τ} {x y : Bytes} {fin : Bool} (inp : Bytes) (room : Nat) (fl : Flush), hL.R s x y fin → Proto fin fl inp →
+theorem process_data_meets_contract_partial {τ : Type} {L : Lib τ} {b : Backend} :
+    (∀ (hL : LibEncContract L b Dec),
+      (∀ {s : τ} {x y : Bytes} {fin : Bool} (inp : Bytes) (room : Nat) (fl : Flush), hL.R s x y fin → Proto fin fl inp →
         (wrapProcess L b true s inp room fl).isSome = true) ∧
-    Nonempty (EncContract (wrapCodec L b true) Dec) := by
-  refine ⟨?_, ⟨wrapEncContract hL⟩⟩
-  intro s x y fin inp room fl hR hP
-  obtain ⟨r, hr, _⟩ := wrapProcess_enc_spec hL inp room fl hR hP
-  simp [hr]
+      Nonempty (EncContract (wrapCodec L b true) Dec)) ∧
+    (∀ (hL : LibDecContract L b Dec),
+      (∀ {s : τ} {u v : Bytes} (w x tail inp : Bytes) (room : Nat) (fl : Flush), hL.R s u v → Dec (u ++ w) = some x →
+        IsPre inp (w ++ tail) → (wrapProcess L b false s inp room fl).isSome = true) ∧
+      Nonempty (DecContract (wrapCodec L b false) Dec)) := by
+  refine ⟨fun hL => ⟨?_, ⟨wrapEncContract hL⟩⟩, fun hL => ⟨?_, ⟨wrapDecContract hL⟩⟩⟩
+  · intro s x y fin inp room fl hR hP
+    obtain ⟨r, hr, _⟩ := wrapProcess_enc_spec hL inp room fl hR hP
+    simp [hr]
+  · intro s u v w x tail inp room fl hR hd hin
+    obtain ⟨r, hr, _⟩ := wrapProcess_dec_spec hL w x tail inp room fl hR hd hin
+    simp [hr]
+
+/-- hence: reading a `.tar.gz|xz|bz2` through `istream_xfrm` is transparent, and a cut-off input is an error, for every
+library meeting the decompression convention -/
+theorem backend_istream_transparent {τ : Type} {L : Lib τ} {b : Backend} (hL : LibDecContract L b Dec) {bufsz : Nat}
+    (hb : 0 < bufsz) {ms xs : List Bytes} (hms : Members Dec ms xs) (script : List Nat) (ops : List (Nat × Nat))
+    (hw : ∀ op ∈ ops, 0 < op.1) :
+    ∃ fuel st acc eof, (∀ f, fuel ≤ f → iRead (wrapCodec L b false) bufsz f (iInit (wrapCodec L b false) ⟨ms.flatten, script⟩) ops [] =
+        some (.ok (st, acc, eof))) ∧
+      IsPre acc xs.flatten ∧ (eof = true → acc = xs.flatten) ∧ ((∀ op ∈ ops, 0 < op.2) → eof = true ∨ ops.length ≤ acc.length) :=
+  istream_transparent (wrapDecContract hL) hb hms script ops hw
+
+theorem backend_truncated_is_error {τ : Type} {L : Lib τ} {b : Backend} (hL : LibDecContract L b Dec) {bufsz : Nat}
+    (hb : 0 < bufsz) {ms xs : List Bytes} (hms : Members Dec ms xs) {t t' xT : Bytes} (ht : t ≠ []) (ht' : t' ≠ [])
+    (hcut : Dec (t ++ t') = some xT) (script : List Nat) (ops : List (Nat × Nat)) (hw : ∀ op ∈ ops, 0 < op.1) :
+    ∃ fuel r, (∀ f, fuel ≤ f → iRead (wrapCodec L b false) bufsz f (iInit (wrapCodec L b false) ⟨ms.flatten ++ t, script⟩) ops [] = some r) ∧
+      (r = .error errCompressor ∨ ∃ st acc, r = .ok (st, acc, false) ∧ IsPre acc (xs.flatten ++ xT)) ∧
+      ((∀ op ∈ ops, 0 < op.2) → (xs.flatten ++ xT).length < ops.length → r = .error errCompressor) :=
+  truncated_is_error (wrapDecContract hL) hb hms ht ht' hcut script ops hw
 
 /-- hence: `sqfs2tar -c gzip|xz|bzip2`'s output stream is transparent for every library meeting the convention -/
 theorem backend_ostream_transparent {τ : Type} {L : Lib τ} {b : Backend} (hL : LibEncContract L b Dec) {bufsz : Nat}
@@ -176,7 +204,8 @@ theorem backend_ostream_transparent {τ : Type} {L : Lib τ} {b : Backend} (hL :
 
 /-- Non-vacuity of the library-level convention: the toy library meets it under each backend's return-code convention. -/
 theorem toy_library_meets_convention (P : Toy.Params) (b : Backend) :
-    Nonempty (LibEncContract (Toy.encLib P b) b Toy.decode) := ⟨Toy.encLibContract P b⟩
+    Nonempty (LibEncContract (Toy.encLib P b) b Toy.decode) ∧ Nonempty (LibDecContract (Toy.decLib P b) b Toy.decode) :=
+  ⟨⟨Toy.encLibContract P b⟩, ⟨Toy.decLibContract P b⟩⟩
 
 /-- Non-vacuity: the toy codec (internal queue, limited intake and output granularity, any knob setting) meets
 the encoder contract with the toy format's one-shot decoder. -/
